@@ -157,7 +157,7 @@ def c11_meshes():
 def run_case(case):
     res = CaseResult()
     mods = common.mods()
-    ref = families.make_ref('p', case['mesh'], FIELDS, layout=case['layout'], geom=case['geom'])
+    ref = families.make_ref('p', case['mesh'], FIELDS, layout=case['layout'], geom=case['geom'], level_prefix=case.get('level_prefix', 'Level_'))
     viol = {}
     runs = []
     for i, cfg in enumerate(CONFIGS):
@@ -320,6 +320,8 @@ def cases():
     lays = families.all_layouts(3, 2)
     for j, lay in enumerate(lays[::3] if tier == 'quick' else lays):
         out.append({'label': '3box/layout%s' % (lay,), 'mesh': m3, 'layout': [lay], 'geom': 1, 'k': j})
+    out.append({'label': '3box/17-digit-geometry', 'mesh': m3, 'layout': [lays[1]], 'geom': 3, 'k': 0})
+    out.append({'label': '2lev/lev-prefix', 'mesh': c11_meshes()[2], 'layout': families.scatter_layouts(c11_meshes()[2], rnd, max_files=2), 'geom': 2, 'k': 1, 'level_prefix': 'Lev_'})
     for r in range(1 if tier == 'quick' else 24):
         m = families.random_mesh(rnd, 3, max_levels=2, max_boxes=3, max_extent=2)
         if sum(int(np.prod([h - l + 1 for l, h in zip(blo, bhi)])) for lv in m.boxes for blo, bhi in lv) > 40:
